@@ -8,27 +8,30 @@ Record mstate : Type := {
   m_fields : list (Z * fstate);         (* fields[2..] : one state per spec'd field, set or not *)
   m_present : list Z;                   (* fieldsMap *)
   m_bm : bytes;                         (* data of fields[1] *)
-  m_bmcached : bool }.
+  m_bmcached : bool;
+  m_failed : bytes }.                   (* failedID, as its decimal numeral: the data element at which the last Unpack failed, empty = none *)
 
 Definition mfresh (S : mspec) : mstate :=
   {| m_mti := fresh (FPrim (ms_mti S));
      m_fields := map (fun '(id, s) => (id, fresh s)) (ms_fields S);
-     m_present := []; m_bm := []; m_bmcached := false |}.
+     m_present := []; m_bm := []; m_bmcached := false; m_failed := [] |}.
 
 (* m.bitmap(): first use caches the field, resets it and enters 1 into the presence set *)
 Definition m_bitmap (S : mspec) (m : mstate) : mstate :=
   if m_bmcached m then m
   else {| m_mti := m_mti m; m_fields := m_fields m; m_present := zadd 1 (m_present m);
-          m_bm := bm_new (ms_bm S); m_bmcached := true |}.
+          m_bm := bm_new (ms_bm S); m_bmcached := true; m_failed := m_failed m |}.
 
 Definition with_bm (m : mstate) (bm : bytes) : mstate :=
-  {| m_mti := m_mti m; m_fields := m_fields m; m_present := m_present m; m_bm := bm; m_bmcached := m_bmcached m |}.
+  {| m_mti := m_mti m; m_fields := m_fields m; m_present := m_present m; m_bm := bm; m_bmcached := m_bmcached m; m_failed := m_failed m |}.
 Definition with_present (m : mstate) (p : list Z) : mstate :=
-  {| m_mti := m_mti m; m_fields := m_fields m; m_present := p; m_bm := m_bm m; m_bmcached := m_bmcached m |}.
+  {| m_mti := m_mti m; m_fields := m_fields m; m_present := p; m_bm := m_bm m; m_bmcached := m_bmcached m; m_failed := m_failed m |}.
 Definition with_fields (m : mstate) (f : list (Z * fstate)) : mstate :=
-  {| m_mti := m_mti m; m_fields := f; m_present := m_present m; m_bm := m_bm m; m_bmcached := m_bmcached m |}.
+  {| m_mti := m_mti m; m_fields := f; m_present := m_present m; m_bm := m_bm m; m_bmcached := m_bmcached m; m_failed := m_failed m |}.
+Definition with_failed (m : mstate) (i : bytes) : mstate :=
+  {| m_mti := m_mti m; m_fields := m_fields m; m_present := m_present m; m_bm := m_bm m; m_bmcached := m_bmcached m; m_failed := i |}.
 Definition with_mti (m : mstate) (f : fstate) : mstate :=
-  {| m_mti := f; m_fields := m_fields m; m_present := m_present m; m_bm := m_bm m; m_bmcached := m_bmcached m |}.
+  {| m_mti := f; m_fields := m_fields m; m_present := m_present m; m_bm := m_bm m; m_bmcached := m_bmcached m; m_failed := m_failed m |}.
 
 (* MTI(val): errors of SetBytes are dropped *)
 Definition m_set_mti (S : mspec) (m : mstate) (val : bytes) : mstate :=
@@ -108,22 +111,23 @@ Fixpoint unpack_fields (fuel : nat) (S : mspec) (bm : bytes) (i : Z) (src : byte
             match unpack_f s st (zdrop off src) with
             | (st', UOk read) => unpack_fields f S bm (i + 1) src (off + read) (zadd i present) (zupdate i st' fields)
             | (st', UErr p e) => ((present, zupdate i st' fields), UErr (itoa i :: p) e)
-            | (st', UPanic q) => ((present, zupdate i st' fields), UPanic q)
-            | (st', UFuel) => ((present, zupdate i st' fields), UFuel)
+            | (_, UPanic q) => ((present, fields), UPanic q)       (* not an outcome of the library: the state is immaterial *)
+            | (_, UFuel) => ((present, fields), UFuel)
             end
         | _, _ => ((present, fields), UErr [itoa i] (E "message.no_specification"))
         end
       else unpack_fields f S bm (i + 1) src off present fields
   end.
 
-(* unpack first unsets every data element that was set: the field object is re-created (unsetField) *)
-Definition reset_fields (S : mspec) (present : list Z) (fields : list (Z * fstate)) : list (Z * fstate) :=
-  map (fun ist => if zmem (fst ist) present then match zlookup (fst ist) (ms_fields S) with Some s => (fst ist, fresh s) | None => ist end else ist) fields.
+(* unpack first unsets every data element that was set, and the one at which the previous Unpack failed (F30): the
+   field object is re-created (unsetField / createMessageField) *)
+Definition reset_fields (S : mspec) (failed : bytes) (present : list Z) (fields : list (Z * fstate)) : list (Z * fstate) :=
+  map (fun ist => if zmem (fst ist) present || bytes_eqb (itoa (fst ist)) failed then match zlookup (fst ist) (ms_fields S) with Some s => (fst ist, fresh s) | None => ist end else ist) fields.
 
 (* Unpack: state afterwards (also on failure) and the result: bytes consumed *)
 Definition m_unpack (S : mspec) (m0 : mstate) (src : bytes) : mstate * ures Z :=
   (* unset what was set ; m.fieldsMap = {} ; m.bitmap().Reset() *)
-  let m0 := with_fields m0 (reset_fields S (m_present m0) (m_fields m0)) in
+  let m0 := with_failed (with_fields m0 (reset_fields S (m_failed m0) (m_present m0) (m_fields m0))) [] in
   let m1 := m_bitmap S (with_present m0 []) in
   let m1 := with_bm m1 (bm_new (ms_bm S)) in
   match unpack_f (FPrim (ms_mti S)) (m_mti m1) src with
@@ -133,7 +137,9 @@ Definition m_unpack (S : mspec) (m0 : mstate) (src : bytes) : mstate * ures Z :=
       | (bm, Ok r2) =>
           let m3 := with_present (with_bm m2 bm) (zadd 1 (m_present m2)) in
           match unpack_fields (Z.to_nat (zlen bm * 8 - 1)) S bm 2 src (read + r2) (m_present m3) (m_fields m3) with
-          | ((p, fl), r) => (with_fields (with_present m3 p) fl, r)
+          | ((p, fl), r) =>
+              let failed := match r with UErr (idb :: _) _ => idb | _ => [] end in
+              (with_failed (with_fields (with_present m3 p) fl) failed, r)
           end
       | (bm, Err e) => (with_bm m2 bm, UErr [E "1"] e)
       | (bm, Panic q) => (with_bm m2 bm, UPanic q)
